@@ -1,5 +1,5 @@
 ---- MODULE MC_ClientMsg ----
 EXTENDS ClientMsgCases
-MCPrefixes == {"REMOTE", "SERVER", "CLIENT", "AGGREGATE", "A", ".", ".syn", "other", ""}
+MCPrefixes == {"REMOTE", "SERVER", "CLIENT", "AGGREGATE", "A", ".", ".syn", ".syn1", ".syn2", ".synb", "other", ""}
 MCLast == {"", "text", "100", "WARN", "ERROR", "FATAL", "crlf", "utf8", "esc", "OK", "indent", "trail"}   \* indent: blanks in front of a severity word; trail: blanks / tabs at the end
 ====
